@@ -1126,6 +1126,24 @@ func (d *Defs) reachableFrom(name string) map[string]bool {
 	return seen
 }
 
+// oneValued: the type admits exactly one JSON value.
+func oneValued(t *Src) bool {
+	switch t.Kind {
+	case SConst:
+		return true
+	case SEnumS:
+		return len(t.EnumS) == 1
+	case SEnumI:
+		return len(t.EnumI) == 1
+	case SInt:
+		lo, hi := t.effRange()
+		return lo == hi
+	case SNum:
+		return t.FLo != nil && t.FHi != nil && *t.FLo == *t.FHi
+	}
+	return false
+}
+
 func isPlainScalar(s *Src) bool {
 	switch s.Kind {
 	case SBool, SInt, SNum, SEnumS, SEnumI:
@@ -1146,8 +1164,8 @@ func (g *srcGen) defaultFor(dg *docGen, ty *Src) (JV, bool) {
 	if g.o.avoid(tag) {
 		return JV{}, false
 	}
-	if g.d.singleton(t, 4) && t.Kind != SStruct {
-		return JV{}, false // a default on a one-valued type says nothing (and CUE front-end chokes on `31 | *31`)
+	if oneValued(t) {
+		return JV{}, false // a default on a one-valued type says nothing (and cog's CUE front-end chokes on `31 | *31`)
 	}
 	switch t.Kind {
 	case SBool, SInt, SNum, SEnumS, SEnumI:
